@@ -16,9 +16,13 @@ THEOREMS = ["Mistune.cli_message_stdout", "Mistune.cli_message_file", "Mistune.c
 DOCS = ["Hi **Markdown**", "# T\n\npara ~~del~~ text[^1]\n\n[^1]: note\n", "a | b\n--- | ---\n1 | 2\n",
         "line one\nline two  \nthree <b>raw</b> & x\n", "- item\n- [ ] task\n\n> quote https://u.v\n",
         "﻿# bom title\n", "    code\n\n```py\nx\n```\n", "tab\there é ß 日本\n", "x", "[a](u) ![i](s \"t\") `c`\n\n***\n",
-        "H~2~O ^sup^ ==m== ^^ins^^ $m$\n", "term\n: def\n\n*[HTML]: Hyper\nHTML\n"]
+        "H~2~O ^sup^ ==m== ^^ins^^ $m$\n", "term\n: def\n\n*[HTML]: Hyper\nHTML\n",
+        # content whose conversion depends on its last characters (unclosed fence / HTML block keep trailing blank lines) and on plugin order
+        "```\nopen fence\n\n\n", "<pre>\n\nkeep\n\n\n", "~~~\n\n", "text\n\n\n\n", "see https://example.com/page for details and ~~x~~\n", "a\r\nb\rc\n", "\n\nlead", "trail   \n\n"]
 PLUGIN_SETS = [None, ["url"], ["table"], ["strikethrough", "url"], ["footnotes"], ["task_lists", "def_list"],
-               ["math", "ruby", "spoiler"], ["abbr", "mark", "insert", "superscript", "subscript"], ["speedup"]]
+               ["math", "ruby", "spoiler"], ["abbr", "mark", "insert", "superscript", "subscript"], ["speedup"],
+               # order and repetition are part of the configuration (plugins register rules in the order given)
+               ["url", "speedup"], ["speedup", "url"], ["url", "strikethrough", "speedup", "url"], ["table", "speedup", "def_list", "abbr"], ["spoiler", "url", "speedup", "footnotes"]]
 RENDERERS = ["html", "markdown", "rst"]
 
 
@@ -75,7 +79,7 @@ def cases(ctx, big=False):
     ctx.rng.shuffle(prod)
     n = len(prod) if (big or not ctx.quick()) else 260
     for i, (esc, hw, rend, pi, chan, outf) in enumerate(prod[:n]):
-        doc = DOCS[(i + ctx.seed) % len(DOCS)] if ctx.rng.random() < 0.8 else gen.md_doc(ctx.rng, 5).strip("\n") or "x"
+        doc = DOCS[(i + ctx.seed) % len(DOCS)] if ctx.rng.random() < 0.8 else (gen.md_any(ctx.rng, 5).replace("\x00", "") or "x")
         if chan == "-m" and doc.startswith("-"):
             doc = "x " + doc
         out.append(dict(escape=esc, hardwrap=hw, renderer=rend, plugins=PLUGIN_SETS[pi], chan=chan, outfile=outf, doc=doc))
